@@ -357,10 +357,12 @@ def do_op(ctx, aid, oi, table, op):
         state = {"n": 0}
         cbid = (aid, oi)
 
+        E = _endm(ctx)
+
         def cb(item):
             n = state["n"]
             state["n"] = n + 1
-            if item is ENDM or item == ENDM:
+            if item is E or (type(item) is type(E) and item == E):
                 ctx.rec(aid, oi, "cb", ("end", label))
                 if end_latch is not None:
                     end_latch.set()
@@ -372,7 +374,7 @@ def do_op(ctx, aid, oi, table, op):
                 raise CbError("cb boom %s" % (cbid,))
 
         if want_end:
-            _ch(table, label).setcallback(cb, endmarker=ENDM)
+            _ch(table, label).setcallback(cb, endmarker=E)
         else:
             _ch(table, label).setcallback(cb)
         return ("ok",)
@@ -479,6 +481,10 @@ def do_op(ctx, aid, oi, table, op):
         l = ctx.latch(op[1]) if len(op) > 1 and op[1] else None
         while l is None or not l.flag:
             s.sleep(0.05)  # 50 ms of computation, then an interruptible point
+        return ("ok",)
+    if k == "sig_ignore_term":
+        # signal.signal(SIGTERM, SIG_IGN) of the simulated process
+        s.current.proc.ignore_term = True
         return ("ok",)
     if k == "swallow_busy":
         # keeps running and swallows every KeyboardInterrupt (the worst-behaved remote program)
@@ -613,7 +619,8 @@ def do_op(ctx, aid, oi, table, op):
         mc = table[op[1]]
         labels = op[2]
         chans = [table[l] for l in labels]
-        q = mc.make_receive_queue(endmarker=ENDM) if op[3] else mc.make_receive_queue()
+        E = _endm(ctx)
+        q = mc.make_receive_queue(endmarker=E) if op[3] else mc.make_receive_queue()
         need_end = len(labels) if op[3] else 0
         need_items = op[4]
         Empty = ctx.w.execmodel_for(s.current.proc, "thread").queue.Empty
@@ -626,7 +633,7 @@ def do_op(ctx, aid, oi, table, op):
             for l, c in zip(labels, chans):
                 if c is chan:
                     lab = l
-            if item is ENDM or item == ENDM:
+            if item is E or (type(item) is type(E) and item == E):
                 need_end -= 1
                 ctx.rec(aid, oi, "sub", ("end", lab))
             else:
@@ -662,7 +669,7 @@ def _filedata(w):
 # ---------------------------------------------------------------------------
 
 VARIANTS = ("close_creator", "close_receiver", "drop_both", "cb_close", "close_both", "drop_creator", "cb_close_hold",
-            "close_creator_hold", "cb_drop_hold", "cb_drop_errclose_hold")
+            "close_creator_hold", "cb_drop_hold", "cb_drop_errclose_hold", "cb_peercb_drop")
 NESTS = ("bare", "list", "tuple", "dict")
 
 
@@ -680,6 +687,16 @@ def _nest(c, how):
     if how == "tuple":
         return (c, 1)
     return {"x": {"y": [c]}}
+
+
+def _ignore_item(item):
+    pass
+
+
+def _endm(ctx):
+    """the endmarker value of this run: a string by default; None and falsy values are legal endmarkers too"""
+    kind = ctx.case.get("endmarker_kind", "obj")
+    return {"obj": ENDM, "none": None, "zero": 0, "false": False, "empty": ""}[kind]
 
 
 def _release(entry):
@@ -744,6 +761,9 @@ def _cycles(ctx, aid, oi, table, op):
                 via.send(("ack", k))
                 continue
             c.send(("#IT:%s#" % tok, "on-sub", k))
+            if variant == "cb_peercb_drop":
+                # both ends have a callback; this end is dropped first (last-message), the creator drops afterwards
+                c.setcallback(_ignore_item)
             if variant in ("close_receiver", "close_both"):
                 c.close()
             if variant.endswith("_hold"):
